@@ -899,6 +899,57 @@ class Body:
                 out.append(si)
         return out
 
+    def option_edges_from(self, call):
+        """Switches on the discriminant of an Option / Result that *is* the value returned by `call`, however it travelled to the match:
+        moved through locals, borrowed (`as_ref`), or packed as a component of a tuple that is matched (`match (f(x), existing)`).
+        Returns [(switch_block, {variant: target})]."""
+        out = []
+        for b in range(self.n):
+            if self.is_cleanup(b) or self.term(b)["k"] != "switch":
+                continue
+            si = self.switch_info(b)
+            if not si or si["kind"] != "disc":
+                continue
+            op = self._narrow(["m", si["place"]])
+            pl = op_place(op)
+            if pl is None:
+                continue
+            hit = False
+            seen = 0
+            # follow moves / reborrows / as_ref back to the defining call
+            while seen < 8:
+                seen += 1
+                if [x for x in pl[1] if x != "*" and not (isinstance(x, list) and x[0] == "d")]:
+                    # a field of something: narrow once more (tuple component), else give up
+                    op2 = self._narrow(["m", pl])
+                    p2 = op_place(op2)
+                    if p2 is None or p2 == pl:
+                        break
+                    pl = p2
+                    continue
+                d = self.single_def(pl[0])
+                if d is None:
+                    break
+                if d[0] == "call":
+                    if d[2] is call:
+                        hit = True
+                    elif d[2].name in ("as_ref", "as_mut", "as_deref", "take") and d[2].args and op_place(d[2].args[0]) is not None:
+                        pl = op_place(d[2].args[0])
+                        continue
+                    break
+                if d[0] == "assign":
+                    rv = d[3]
+                    if rv[0] == "use" and op_place(rv[1]) is not None:
+                        pl = op_place(rv[1])
+                        continue
+                    if rv[0] == "ref":
+                        pl = rv[2]
+                        continue
+                break
+            if hit:
+                out.append((b, self.variant_edges(b)))
+        return out
+
     def result_switches(self, call, max_hops=6):
         """Switches on the discriminant of the value returned by `call` (possibly after moves and
         `Try::branch`). Returns list of switch_info."""
